@@ -644,6 +644,26 @@ def run_engine(seed, tier):
     res = analyze(traces, mo)
     res.update(ntraces=len(traces), ncorpus=ncorpus, key=key, seed=seed, tier=tier,
                timing=dict(gen_s=round(t1 - t0, 1), model_s=round(t2 - t1, 1), analyze_s=round(time.time() - t2, 1)))
+    # ---- search for a concrete failing input: model and implementation differ, but no monitor names a trace on
+    # which a property fails. Look for one in a wider set of schedules (every merge of close() with one other
+    # operation, larger random batches), judged by the monitors on the implementation alone.
+    if tier != 'thorough' and any(res['props'][p]['mismatches'] for p in PROPS) \
+            and not any(res['props'][p]['monitor_fails'] for p in PROPS):
+        t3 = time.time()
+        extra = gen_traces(seed * 1000 + 904, 'race', RACE_TOTAL, 0)
+        for bi, (profile, n, ml) in enumerate([('close', 700, 60), ('mixed', 500, 80), ('full', 400, 60)]):
+            extra += gen_traces(seed * 1000 + 910 + bi, profile, n, ml)
+        found = 0
+        base = len(traces)
+        for j, t in enumerate(extra):
+            fails = monitor_trace(t, [parse_obs(o) for o in t['obs']])
+            for p, (st, msg) in fails.items():
+                if p in res['props'] and len(res['props'][p]['monitor_fails']) < 5:
+                    res['props'][p]['monitor_fails'].append(dict(trace=base + j, step=st, msg=msg))
+                    found += 1
+        traces = traces + extra
+        res['search'] = dict(reason='correspondence divergence without a monitor failure', traces=len(extra),
+                             monitor_failures_found=found, wall_s=round(time.time() - t3, 1))
     keep = set()
     for p in PROPS:
         for m in res['props'][p]['mismatches'][:3] + res['props'][p]['monitor_fails'][:3]:
